@@ -525,6 +525,7 @@ class Compilation:
                 self.mode,
                 version=self.version,
                 assembleConstants=self.assemble_constants,
+                assembly_type_track=self.assembly_type_track,
                 optimize=self.optimize,
             )
 
